@@ -111,8 +111,8 @@ func (l *evlog) addStart(c, lane, g int) {
 		s = len(l.gids) + 1
 		l.gids[g] = s
 	}
-	if lane > 1000 || lane < -1000 {
-		lane = -1000 // keeps the event int32-safe; any out-of-range index is inexplicable anyway
+	if lane > 500 || lane < -500 {
+		lane = -500 // keeps the event int32-safe; any out-of-range index is inexplicable anyway
 	}
 	l.evs = append(l.evs, tr.E{"ev": "start", "c": c, "lane": lane, "g": s})
 	l.mu.Unlock()
@@ -325,8 +325,8 @@ func (wd *world) prepare(c *call, hv int, fail, pre, gated bool) bool {
 		wd.hclass[hv] = cl
 		if wd.kind == "mline" && wd.withIdx {
 			r := wd.ml.IndexOf(hv)
-			if r > 1000 || r < -1000 {
-				r = -1000
+			if r > 500 || r < -500 {
+				r = -500
 			}
 			wd.log.add(tr.E{"ev": "idx", "h": cl, "r": r, "hv": strconv.Itoa(hv)})
 		}
